@@ -485,7 +485,11 @@ def r4_run_if(report, repo, rule='C05-R4'):
     report.check(ok, rule5, f.qualname, 'hit_repeat_limit-guard', h,
                  'hit_repeat_limit set only for a REPEAT result on the last '
                  'allowed invocation')
-    blk = h._parent.body if hasattr(h._parent, 'body') else []
+    blk = []
+    for field in ('body', 'orelse', 'finalbody'):
+      cand = getattr(h._parent, field, None)
+      if isinstance(cand, list) and any(x is h for x in cand):
+        blk = cand
     ov = [n for n in blk if isinstance(n, ast.Assign) and len(n.targets) == 1
           and isinstance(n.targets[0], ast.Name) and any(
               ends_with(dotted(x) or '', 'PhaseResult.STOP')
@@ -501,7 +505,8 @@ def r4_run_if(report, repo, rule='C05-R4'):
   vals = lib.value_exprs(g, final, first)
   ok = bool(ov_names) and bool(vals) and all(
       isinstance(v, ast.BoolOp) and isinstance(v.op, ast.Or) and
-      len(v.values) == 2 and core.is_name(v.values[0], ov_names[0]) and
+      len(v.values) == 2 and isinstance(v.values[0], ast.Name) and
+      v.values[0].id in lib.copy_class(f, ov_names[0]) and
       (dotted(v.values[1]) or '').endswith('.result') for v in vals)
   report.check(ok, rule5, f.qualname, 'final-result', final.ast,
                'returned result = override_result or the (refreshed) phase '
